@@ -29,6 +29,8 @@ def gen_cases(tier, seed):
         rng = bases.rng_for("C14", seed, tier, i)
         nsh = int(rng.integers(1, 4))
         ls = [int(x) for x in rng.integers(0, 4, size=nsh)]
+        if i % 5 == 2:
+            ls[0] = 3
         tp = list(bases.type_patterns(nsh)[(i // 2) % (2 ** nsh)]) if i % 2 else None
         shells, classes = bases.rand_basis(rng, ls, types=tp, scale=1.0, emax_fn=lambda l: min(bases.cap(l), 500.0), Kmax=3, Mmax=2)
         nnuc = int(rng.integers(1, 6))
@@ -53,6 +55,15 @@ def gen_cases(tier, seed):
                 p = a + rng.normal(size=3) * 1.2
                 pcl.add("pt:generic")
             pts.append([float(v) for v in p])
+        if i % 5 == 2:
+            # Boys window: points where (a+b)|P-C|^2 of the dominant primitive pairs of the highest-l shell is 15 .. 45
+            hs = max(shells, key=lambda s_: s_["l"])
+            a_ = max(hs["e"])
+            for k in range(min(6, len(pts))):
+                u = rng.normal(size=3)
+                u /= np.linalg.norm(u)
+                pts[k] = [float(v) for v in np.array(hs["c"]) + u * np.sqrt(float(rng.uniform(15, 45)) / (2 * a_))]
+            pcl.add("pt:boys-window")
         ntot = sum(bases.nfunc(s) for s in shells)
         T, tcls = bases.rand_transform(rng, ntot, ["none", "orth", "fewer", "more", "general", "none"][i % 6])
         norb = ntot if T is None else len(T)
